@@ -5,6 +5,7 @@
 #include "fastscapelib/flow/flow_graph_impl.hpp"
 #include "fastscapelib/flow/flow_operator.hpp"
 #include "fastscapelib/grid/base.hpp"
+#include "fastscapelib/utils/verif_hooks.hpp"
 
 
 namespace fastscapelib
@@ -173,6 +174,7 @@ namespace fastscapelib
 
                         for (auto n : grid.neighbors(i, neighbors))
                         {
+                            FSL_VERIF_POINT(verif::r_neighbor, &graph_impl, i, nullptr);
                             if (!graph_impl.is_masked(n.idx))
                             {
                                 slope = (elevation.flat(i) - elevation.flat(n.idx)) / n.distance;
